@@ -20,6 +20,8 @@ def main():
         cpu_hard = args.get("cpu_hard_s")
         if cpu_hard:
             resource.setrlimit(resource.RLIMIT_CPU, (cpu_hard, cpu_hard + 5))
+        mem = args.get("mem_limit_mb", 3072) * 1024 * 1024
+        resource.setrlimit(resource.RLIMIT_AS, (mem, mem))
         import gtirb
 
         real = os.path.realpath(gtirb.__file__)
